@@ -490,4 +490,7 @@ def sim_case(draw, o: Optional[Opts] = None, max_ranks: int = 2, same_steps: boo
                 span["ts"] = epoch
                 events.append(span)
         ranks.append({"rank": r, "events": events})
-    return {"ranks": ranks, "fmt": pick(draw, ["json", "gz"]), "mp": pick(draw, [False] * 5 + [True])}
+    from hv.hta_io import prelude_strategy
+
+    return {"ranks": ranks, "fmt": pick(draw, ["json", "gz"]), "mp": pick(draw, [False] * 5 + [True]),
+            "prelude": draw(prelude_strategy())}
